@@ -7,7 +7,7 @@ from mc.ref import ports as RP
 def shape_matches(isa, row, mem):
     """row: table row dict (base/index/offset/scale patterns); mem: dict(base, index, offset,
     scale) of the instruction's memory operand with base/index = register type or None,
-    offset in {None, 'imd'}"""
+    offset in {None, 'imd', 'id'} (immediate / symbolic displacement)"""
     def reg(p, k):
         if p == "*":
             return True
@@ -21,6 +21,8 @@ def shape_matches(isa, row, mem):
         if po is None and mem["offset"] is not None:
             return False
         if po == "imd" and mem["offset"] != "imd":
+            return False
+        if po == "id" and mem["offset"] != "id":
             return False
     ps = row.get("scale")
     if ps != "*":
